@@ -267,11 +267,11 @@ func targetCensor(dname string, mk func() dialect.Dialect) func([]byte) hx.Vs {
 func init() {
 	for dname, mk := range dialects() {
 		mk := mk
-		register(&target{name: "sql.parse." + dname, group: "FuzzSQL", fn: targetSQLParse(dname, mk), nontrivial: sqlNontrivial, seeds: sqlSeedBytes, text: true})
-		register(&target{name: "sql.redact." + dname, group: "FuzzSQL", fn: targetSQLRedact(dname, mk), nontrivial: sqlNontrivial, seeds: sqlSeedBytes, text: true})
-		register(&target{name: "sql.tokenizer." + dname, group: "FuzzSQL", fn: targetSQLTokenizer(dname, mk), nontrivial: sqlNontrivial, seeds: sqlSeedBytes, text: true})
+		register(&target{name: "sql.parse." + dname, group: "FuzzSQL", fn: targetSQLParse(dname, mk), nontrivial: sqlNontrivial, seeds: sqlSeedBytes, text: true, hostile: sqlHostile})
+		register(&target{name: "sql.redact." + dname, group: "FuzzSQL", fn: targetSQLRedact(dname, mk), nontrivial: sqlNontrivial, seeds: sqlSeedBytes, text: true, hostile: sqlHostile})
+		register(&target{name: "sql.tokenizer." + dname, group: "FuzzSQL", fn: targetSQLTokenizer(dname, mk), nontrivial: sqlNontrivial, seeds: sqlSeedBytes, text: true, hostile: sqlHostile})
 		if dname != "mysql-ansi" {
-			register(&target{name: "censor.query." + dname, group: "FuzzSQL", fn: targetCensor(dname, mk), nontrivial: sqlNontrivial, seeds: sqlSeedBytes, text: true})
+			register(&target{name: "censor.query." + dname, group: "FuzzSQL", fn: targetCensor(dname, mk), nontrivial: sqlNontrivial, seeds: sqlSeedBytes, text: true, hostile: sqlHostile})
 		}
 	}
 }
